@@ -55,7 +55,7 @@ STREAM_CLOSED = 5
 
 
 def n_cases(tier):
-    return 5000 if tier == 'quick' else 250000
+    return 5000 if tier == 'quick' else 3000000
 
 
 def run_case(idx, rng, tier, rep):
